@@ -347,23 +347,33 @@ def opDecr (args : List String) (impl : String) : Verdict :=
         let run := decodeRanges hf fl stream ranges sink
         let term := match run.terminal with
           | .done => "Done" | .panic => "panic" | .err e => decErrStr e
-        let m := s!"{term} {dig run.sink.target} {dig run.sink.ob.data} src={srcDigs srcs}"
+        let restS := if run.terminal == .done then toString run.rest.length else "_"
+        let m := s!"{term} {dig run.sink.target} {dig run.sink.ob.data} src={srcDigs srcs} rest={restS}"
+        -- an honest stream, possibly followed by trailing bytes `+x<hex>`
+        let trailing : Option Nat :=
+          if sources != s!"{b}/{bs}/{rs}" then none
+          else if expr == "0:0:$" then some 0
+          else if expr.startsWith "0:0:$+x" && !(expr.contains '~') then some (((expr.drop 7).toString.length) / 2)
+          else none
         let sf : Option String :=
           match impl.splitOn " " with
-          | [iterm, _itgt, _iob, isrc] =>
+          | [iterm, _itgt, _iob, isrc, irest] =>
             if isrc != s!"src={srcDigs srcs}" then some "source encodings differ"
             else if iterm == "panic" then some "decode_ranges panicked"
             else
-              let honestSame := sources == s!"{b}/{bs}/{rs}" && expr == "0:0:$"
-              if honestSame && iterm != "Done" then some s!"honest stream rejected: {iterm}"
-              else none
+              match trailing with
+              | some t =>
+                if iterm != "Done" then some s!"honest stream rejected: {iterm}"
+                else if irest != s!"rest={t}" then some s!"honest stream not consumed exactly: {irest}, expected rest={t}"
+                else none
+              | none => none
           | _ => some "malformed"
         -- target/outboard contents are judged through the model (agreement) and, for honest
         -- streams, by the C02 expectation below
         let sf := match sf with
           | some e => some e
           | none =>
-            if sources == s!"{b}/{bs}/{rs}" && expr == "0:0:$" then
+            if trailing.isSome then
               -- expected final target: selected chunks hold blob bytes, everything else `fill`
               let n := Spec.nChunks d.length
               let selc := (List.range n).map fun c => Spec.selected d.length ranges c
@@ -371,7 +381,7 @@ def opDecr (args : List String) (impl : String) : Verdict :=
                 if selc.getD (i / 1024) false then x else UInt8.ofNat fill
               let _ := n
               match impl.splitOn " " with
-              | [_, itgt, _, _] => if itgt != dig expT then some "target differs from blob-on-selected / untouched-elsewhere" else none
+              | [_, itgt, _, _, _] => if itgt != dig expT then some "target differs from blob-on-selected / untouched-elsewhere" else none
               | _ => none
             else none
         { model := m, specFail := sf, nontrivial := !stream.isEmpty }
